@@ -66,49 +66,40 @@ theorem uint8_eq_of_toNat (c : UInt8) (n : Nat) (hn : n < 256) (h : c.toNat = n)
   apply UInt8.toNat_inj.mp
   rw [UInt8.toNat_ofNat']; omega
 
-/-- reading back one escape sequence -/
-theorem readString_escapeRune (c : UInt8) (hc : needsEscape c.toNat = true) (X : Bytes) (F : Nat) :
-    readString (F + 1) (escapeRune c.toNat ++ X) =
-      match readString F X with
-      | some (d, raw, r) => some (c :: d, escapeRune c.toNat ++ raw, r)
+theorem readString_chunk (F : Nat) (s d raw rest : Bytes) (h : stringStep s = .chunk d raw rest) :
+    readString (F + 1) s =
+      match readString F rest with
+      | some (d', raw', r) => some (d ++ d', raw ++ raw', r)
       | none => none := by
+  simp only [readString, h]
+  cases readString F rest <;> rfl
+
+/-- reading back one escape sequence -/
+theorem stringStep_escapeRune (c : UInt8) (hc : needsEscape c.toNat = true) (X : Bytes) :
+    stringStep (escapeRune c.toNat ++ X) = .chunk [c] (escapeRune c.toNat) X := by
   have hlt := c.toNat_lt
   unfold escapeRune
   by_cases h1 : c.toNat = 0x22
   · have hc' := uint8_eq_of_toNat c _ (by omega) h1
-    subst hc'
-    simp [readString]
-    cases readString F X <;> simp
+    subst hc'; simp [stringStep, simpleEscape]
   by_cases h2 : c.toNat = 0x5C
   · have hc' := uint8_eq_of_toNat c _ (by omega) h2
-    subst hc'
-    simp [readString]
-    cases readString F X <;> simp
+    subst hc'; simp [stringStep, simpleEscape]
   by_cases h3 : c.toNat = 8
   · have hc' := uint8_eq_of_toNat c _ (by omega) h3
-    subst hc'
-    simp [readString]
-    cases readString F X <;> simp
+    subst hc'; simp [stringStep, simpleEscape]
   by_cases h4 : c.toNat = 12
   · have hc' := uint8_eq_of_toNat c _ (by omega) h4
-    subst hc'
-    simp [readString]
-    cases readString F X <;> simp
+    subst hc'; simp [stringStep, simpleEscape]
   by_cases h5 : c.toNat = 10
   · have hc' := uint8_eq_of_toNat c _ (by omega) h5
-    subst hc'
-    simp [readString]
-    cases readString F X <;> simp
+    subst hc'; simp [stringStep, simpleEscape]
   by_cases h6 : c.toNat = 13
   · have hc' := uint8_eq_of_toNat c _ (by omega) h6
-    subst hc'
-    simp [readString]
-    cases readString F X <;> simp
+    subst hc'; simp [stringStep, simpleEscape]
   by_cases h7 : c.toNat = 9
   · have hc' := uint8_eq_of_toNat c _ (by omega) h7
-    subst hc'
-    simp [readString]
-    cases readString F X <;> simp
+    subst hc'; simp [stringStep, simpleEscape]
   · have h20 : c.toNat < 0x20 := by
       simp only [needsEscape, Bool.or_eq_true, decide_eq_true_eq] at hc
       omega
@@ -116,43 +107,37 @@ theorem readString_escapeRune (c : UInt8) (hc : needsEscape c.toNat = true) (X :
     have hh1 := hexVal_hexLower (c.toNat / 16) (by omega)
     have hh2 := hexVal_hexLower (c.toNat % 16) (by omega)
     have h0 : hexVal 0x30 = some 0 := by decide
-    simp only [List.cons_append, List.nil_append, readString]
-    simp [hex4, h0, hh1, hh2, isHighSurr, isSurrogate]
     have e : c.toNat / 16 * 16 + c.toNat % 16 = c.toNat := by omega
-    rw [e, if_neg (by omega), if_neg (by omega)]
     have henc : encodeRune c.toNat = [c] := by
       unfold encodeRune
       rw [if_pos (by omega)]
       simp
-    rw [henc]
-    cases readString F X <;> simp
+    have hse : simpleEscape 0x75 = none := by decide
+    simp only [List.cons_append, List.nil_append, stringStep, hse]
+    simp [readUnicode, hex4, h0, hh1, hh2, isHighSurr, isSurrogate, e]
+    rw [if_neg (by omega), if_neg (by omega), henc]
+
+theorem stringStep_quote (rest : Bytes) : stringStep (0x22 :: rest) = .done rest := by
+  simp [stringStep]
 
 theorem readString_quote (F : Nat) (rest : Bytes) :
     readString (F + 1) (0x22 :: rest) = some ([], [0x22], rest) := by
-  simp [readString]
+  simp [readString, stringStep_quote]
 
 /-- an ASCII byte that needs no escape is copied -/
-theorem readString_plain (c : UInt8) (h80 : c.toNat < 0x80) (hne : needsEscape c.toNat = false)
-    (X : Bytes) (F : Nat) :
-    readString (F + 1) (c :: X) =
-      match readString F X with
-      | some (d, raw, r) => some (c :: d, c :: raw, r)
-      | none => none := by
+theorem stringStep_plain (c : UInt8) (h80 : c.toNat < 0x80) (hne : needsEscape c.toNat = false)
+    (X : Bytes) : stringStep (c :: X) = .chunk [c] [c] X := by
   simp only [needsEscape, Bool.or_eq_false_iff, decide_eq_false_iff_not] at hne
   have h1 : c ≠ 0x22 := by intro e; subst e; simp at hne
   have h2 : c ≠ 0x5C := by intro e; subst e; simp at hne
   have h3 : ¬ c.toNat < 0x20 := hne.1.1
-  simp only [readString, h1, h2, h3, h80, if_false, if_true]
-  cases readString F X <;> rfl
+  simp only [stringStep, h1, h2, h3, h80, if_false, if_true]
 
 /-- a valid multi-byte rune is copied -/
-theorem readString_multi (c : UInt8) (t : Bytes) (hge : 0x80 ≤ c.toNat) (r n : Nat)
-    (hd : decodeRune (c :: t) = (r, n)) (hn2 : 2 ≤ n) (hnl : n ≤ (c :: t).length)
-    (hpre : ∀ X, decodeRune ((c :: t).take n ++ X) = (r, n)) (X : Bytes) (F : Nat) :
-    readString (F + 1) ((c :: t).take n ++ X) =
-      match readString F X with
-      | some (d, raw, rr) => some ((c :: t).take n ++ d, (c :: t).take n ++ raw, rr)
-      | none => none := by
+theorem stringStep_multi (c : UInt8) (t : Bytes) (hge : 0x80 ≤ c.toNat) (r n : Nat)
+    (hn2 : 2 ≤ n) (hnl : n ≤ (c :: t).length)
+    (hpre : ∀ X, decodeRune ((c :: t).take n ++ X) = (r, n)) (X : Bytes) :
+    stringStep ((c :: t).take n ++ X) = .chunk ((c :: t).take n) ((c :: t).take n) X := by
   obtain ⟨n', rfl⟩ : ∃ n', n = n' + 1 := ⟨n - 1, by omega⟩
   have htake : (c :: t).take (n' + 1) = c :: t.take n' := rfl
   have hlen : ((c :: t).take (n' + 1)).length = n' + 1 := by
@@ -161,20 +146,17 @@ theorem readString_multi (c : UInt8) (t : Bytes) (hge : 0x80 ≤ c.toNat) (r n :
   have h2 : c ≠ 0x5C := by intro e; subst e; simp at hge
   have hp := hpre X
   rw [htake] at hp ⊢
-  simp only [List.cons_append]
-  simp only [List.cons_append] at hp
+  simp only [List.cons_append] at hp ⊢
   have h3 : ¬ c.toNat < 0x20 := by omega
   have h4 : ¬ c.toNat < 0x80 := by omega
   have h5 : ¬ (r = runeError ∧ n' + 1 = 1) := by omega
-  simp only [readString, h1, h2, h3, h4, if_false, hp, h5]
   have hdrop : (c :: (t.take n' ++ X)).drop (n' + 1) = X := by
     simp only [List.drop_succ_cons]
     rw [List.drop_left' (by rw [htake] at hlen; simpa using hlen)]
   have htk : (c :: (t.take n' ++ X)).take (n' + 1) = c :: t.take n' := by
     simp only [List.take_succ_cons]
     rw [List.take_left' (by rw [htake] at hlen; simpa using hlen)]
-  rw [hdrop, htk]
-  cases readString F X <;> rfl
+  simp only [stringStep, h1, h2, h3, h4, if_false, hp, h5, hdrop, htk]
 
 /-- **the escaper's output, followed by the closing quote, reads back as the input** -/
 theorem readString_escapeLoop : ∀ (fuel : Nat) (s body rest : Bytes) (F : Nat),
@@ -218,14 +200,17 @@ theorem readString_escapeLoop : ∀ (fuel : Nat) (s body rest : Bytes) (F : Nat)
               have : 2 ≤ (escapeRune c.toNat).length := by
                 unfold escapeRune; (repeat' split) <;> simp
               omega
-            rw [List.append_assoc, readString_escapeRune c hesc, ih t body' rest F' hrec hlen]
+            rw [List.append_assoc, readString_chunk F' _ _ _ _ (stringStep_escapeRune c hesc _),
+              ih t body' rest F' hrec hlen]
             simp
           · have hesc' : needsEscape c.toNat = false := by simpa using hesc
             simp only [hesc', Bool.false_eq_true, if_false, List.take_succ_cons, List.take_zero] at h
             cases h
             have hlen : body'.length < F' := by simp at hF; omega
             simp only [List.cons_append, List.nil_append]
-            rw [readString_plain c h80 hesc', ih t body' rest F' hrec hlen]
+            rw [readString_chunk F' _ _ _ _ (stringStep_plain c h80 hesc' _),
+              ih t body' rest F' hrec hlen]
+            simp
       · -- invalid UTF-8: the escaper fails
         rw [hd] at h; simp at h
       · -- valid multi-byte rune
@@ -246,7 +231,7 @@ theorem readString_escapeLoop : ∀ (fuel : Nat) (s body rest : Bytes) (F : Nat)
           have hlen : body'.length < F' := by
             simp only [List.length_append, List.length_take] at hF
             omega
-          rw [List.append_assoc, readString_multi c t hge r n hd hn2 hnl hpre,
+          rw [List.append_assoc, readString_chunk F' _ _ _ _ (stringStep_multi c t hge r n hn2 hnl hpre _),
             ih _ body' rest F' hrec hlen]
           simp only [List.append_assoc]
           rw [← List.append_assoc, List.take_append_drop]
